@@ -15,8 +15,12 @@ RULE = ("(a) random pairs of consistently typed feature structures (atomic featu
         "FeatureStructuresNotCompatibleException otherwise; (b) random feature grammars: feature-free ones must agree "
         "with the CFG membership oracle on all words of length <=3/4; agreement grammars (every non-terminal occurrence "
         "carries the feature n as a constant or a variable shared between head and body) must agree with the plain CFG "
-        "obtained by instantiating the variables over the domain; returned parse trees are checked against the "
-        "underlying CFG. Non-trivial: structures with >=3 leaves / grammars with >=3 productions.")
+        "obtained by instantiating the variables over the domain, and with the step-faithful Earley model on every "
+        "word; grammars with two features per occurrence (variables shared across features and occurrences, absent "
+        "features, a structured stream in which one item is derivable with and without sharing) are decided by their "
+        "instantiated grammar; returned parse trees are checked against the underlying CFG; (c) structures with "
+        "shared variables: unify (single calls and chains re-using an absorbed argument) against the pointer-level "
+        "model and the ground-meaning oracle. Non-trivial: structures with >=3 leaves / grammars with >=3 productions.")
 LEVEL = "proof"
 THEOREMS = ["Pfl.Earley.earley_sound",
             "Pfl.FsDag.unifySFS_ok",
@@ -204,10 +208,135 @@ def instantiate(spec):
     return {"vars": [], "ters": list(spec["ters"]), "start": start, "prods": prods}
 
 
+# ---- two-feature agreement grammars: features N and C on every occurrence, variables shared across features ----
+FEATS2 = ["N", "C"]
+
+
+def gen_fcfg2(rng, VALS):
+    vs = ["S", "A", "B"][:rng.randint(2, 3)]
+    ts = ["a", "b", "c"][:rng.randint(1, 3)]
+
+    def feats():
+        out = []
+        for _ in FEATS2:
+            r = rng.random()
+            out.append(None if r < 0.2 else (rng.choice(VALS) if r < 0.5 else rng.choice(["?x", "?x", "?y", "?z"])))
+        return out
+    prods = []
+    for _ in range(rng.randint(2, 6)):
+        head = rng.choice(vs)
+        body = []
+        for _ in range(rng.choice([0, 1, 1, 2, 2, 3]) if rng.random() < 0.9 else 0):
+            if rng.random() < 0.5:
+                body.append(["t", rng.choice(ts)])
+            else:
+                body.append(["v", rng.choice(vs), feats()])
+        prods.append([[head, feats()], body])
+    return {"prods": prods, "ters": ts}
+
+
+def build_fcfg2(spec):
+    from pyformlang.cfg import Variable, Terminal
+    from pyformlang.fcfg import FCFG, FeatureProduction, FeatureStructure
+
+    def fs_of(fl, variables):
+        fs = FeatureStructure()
+        for name, val in zip(FEATS2, fl):
+            if val is None:
+                continue
+            if val.startswith("?"):
+                if val not in variables:
+                    variables[val] = FeatureStructure()
+                leaf = FeatureStructure()
+                leaf.pointer = variables[val]
+            else:
+                leaf = FeatureStructure(val)
+            fs.add_content(name, leaf)
+        return fs
+    prods = []
+    for (head, hf), body in spec["prods"]:
+        variables = {}
+        hfs = fs_of(hf, variables)
+        syms, bfs = [], []
+        for item in body:
+            if item[0] == "t":
+                syms.append(Terminal(item[1]))
+                bfs.append(FeatureStructure())
+            else:
+                syms.append(Variable(item[1]))
+                bfs.append(fs_of(item[2], variables))
+        prods.append(FeatureProduction(Variable(head), syms, hfs, bfs))
+    return FCFG(start_symbol=Variable("S"), productions=prods)
+
+
+def instantiate2(spec, VALS):
+    """plain CFG: every occurrence X[N=.,C=.] becomes X_n_c; an absent feature is unconstrained (all values)"""
+    prods = []
+    for (head, hf), body in spec["prods"]:
+        occ = [hf] + [i[2] for i in body if i[0] == "v"]
+        # absent features are fresh variables of their own
+        occ2, k = [], 0
+        for fl in occ:
+            new = []
+            for v in fl:
+                if v is None:
+                    new.append("?_%d" % k)
+                    k += 1
+                else:
+                    new.append(v)
+            occ2.append(new)
+        names = sorted({v for fl in occ2 for v in fl if v.startswith("?")})
+        for combo in itertools.product(VALS, repeat=len(names)):
+            env = dict(zip(names, combo))
+            val = lambda x: env.get(x, x)  # noqa: E731
+            it = iter(occ2)
+            hfl = next(it)
+            h = "%s_%s" % (head, "_".join(val(v) for v in hfl))
+            b = []
+            for i in body:
+                if i[0] == "t":
+                    b.append(["t", i[1]])
+                else:
+                    fl = next(it)
+                    b.append(["v", "%s_%s" % (i[1], "_".join(val(v) for v in fl))])
+            prods.append([h, b])
+    for combo in itertools.product(VALS, repeat=len(FEATS2)):
+        prods.append(["Start", [["v", "S_" + "_".join(combo)]]])
+    # dedupe
+    seen, out = set(), []
+    for h, b in prods:
+        key = (h, tuple(map(tuple, b)))
+        if key not in seen:
+            seen.add(key)
+            out.append([h, b])
+    return {"vars": [], "ters": list(spec["ters"]), "start": "Start", "prods": out}
+
+
+def gen_sharing(rng, VALS):
+    """one item derivable through a rule that shares two features and through a rule that does not, followed by
+    a sister that tells the two apart: what subsumption between Earley states must not confuse"""
+    x1 = [["X", ["?u", "?u"]], [["t", "a"]]]
+    x2 = [["X", ["?u", "?v"]], [["t", "a"]]]
+    extra = []
+    if rng.random() < 0.4:          # one of the alternatives through a unit rule
+        x2 = [["X", ["?u", "?v"]], [["v", "Z", ["?u", "?v"]]]]
+        extra.append([["Z", [rng.choice(VALS + ["?w"]), rng.choice(VALS + ["?w", "?r"])]], [["t", "a"]]])
+    if rng.random() < 0.3:
+        x1 = [["X", [rng.choice(VALS), "?u"]], [["t", "a"]]]
+    y = [["Y", [rng.choice(VALS), rng.choice(VALS)]], [["t", "b"]]]
+    s = [["S", [None, None]], [["v", "X", ["?a", "?b"]], ["v", "Y", ["?a", "?b"]]]]
+    prods = [s, x1, x2, y] + extra
+    if rng.random() < 0.3:
+        prods.append([["Y", ["?k", "?k"]], [["t", "c"]]])
+    rng.shuffle(prods)
+    return {"prods": prods, "ters": ["a", "b", "c"]}
+
+
 def generate(rng, tier):
     while True:
         yield {"a": gen_fs(rng), "b": gen_fs(rng), "sa": gen_sfs(rng, "a"), "sb": gen_sfs(rng, "b"),
-               "sc": gen_sfs(rng, "c"), "g": gen_fcfg(rng)}
+               "sc": gen_sfs(rng, "c"), "g": gen_fcfg(rng),
+               "g2": (gen_sharing(rng, VALS) if rng.random() < 0.5 else gen_fcfg2(rng, VALS))}
 
 
 def count_leaves(spec):
@@ -359,4 +488,23 @@ def run_case(case, drv):
                 res.violation("FCFG.get_parse_tree", "returned tree is not a parse tree of the word",
                               detail={"word": w, "tree": t[1], "grammar": gs}, scope=scope + ["earley_shared_trees"])
                 break
+    # ---- two features per occurrence (sharing across features): decided by the instantiated grammar ----------
+    g2 = case.get("g2")
+    if g2 is not None:
+        st2, fg2 = outcome(lambda: build_fcfg2(g2))
+        if st2 == "ok":
+            plain2 = instantiate2(g2, VALS)
+            ters2 = sorted(g2["ters"])
+            words2 = G.words_upto(ters2, 3)[:30]
+            mem2 = drv.call("cfg.member", G=plain2, words=words2)
+            for w, m in zip(words2, mem2):
+                got = outcome(lambda w=w: fg2.contains(w), limit=3.0, retry=False)
+                res.evals += 1
+                if m is None or got[0] == "timeout":
+                    continue
+                if got != ("ok", m):
+                    res.violation("FCFG.contains", "differs from membership in the instantiated context-free grammar "
+                                  "(two features per occurrence)", detail={"word": w, "impl": got, "spec": m, "grammar": g2})
+                    break
+            res.tag("two_feature_grammar")
     return res
